@@ -150,6 +150,9 @@ TABLES: Dict[str, List[str]] = {
     "special-literals": ["/a.b", "/a+b/{x}", "/(c)"],
     "decimal-date": ["/d/{d:date}", "/d/{x:decimal}", "/d/{s}"],
     "root": ["/", "/{x}"],
+    "decimal-then-str": ["/s/{price:decimal}/{item}", "/s/{x}/{y}"],
+    "decimal-int": ["/q/{p:decimal}/{n:int}", "/q/{rest:any}"],
+    "placeholder-before-literal": ["/{page}", "/about", "/a/{x:int}"],
 }
 ROUTE_PARAM = _re.compile(r"{([^\d]\w*)(:\w+)?}")
 
@@ -181,7 +184,7 @@ def spec_pattern_text(template: str) -> str:
         t = (m.group(2) or ":str").lstrip(":")
         body = {"str": "[^/]+", "int": "[0-9]+", "decimal": r"[0-9]+(?:\.[0-9]+)?", "uuid": "[0-9a-f]{8}-[0-9a-f]{4}-[0-9a-f]{4}-[0-9a-f]{4}-[0-9a-f]{12}",
                 "date": "[0-9]{4}-[0-9]{2}-[0-9]{2}", "any": r"[\s\S]*"}[t]
-        rx += (f"(?P<date_{m.group(1)}>{body})" if t == "date" else f"(?:{body})")
+        rx += f"(?P<{t}__{m.group(1)}>{body})"
         idx = m.end()
     return rx + _re.escape(template[idx:])
 
@@ -193,6 +196,8 @@ def spec_match(pat, path) -> bool:
     if m is None:
         return False
     for name, txt in m.groupdict().items():
+        if not name.startswith("date__"):
+            continue
         its = _items_of(txt)
 
         def num(cs):
@@ -300,7 +305,11 @@ def job_route(job) -> report.JobResult:
             status, eps, err = None, [], ex
         # the statement's matcher, run symbolically on the same path: literal text verbatim, type languages, first wins
         exp = next((i for i, sp in enumerate(spec_pats) if spec_match(sp, path)), None)
-        return status, eps, exp, err
+        exp_params = None
+        if exp is not None:
+            mm = spec_pats[exp].fullmatch(path)
+            exp_params = {k.split("__", 1)[1]: (k.split("__", 1)[0], _items_of(v)) for k, v in mm.groupdict().items()}
+        return status, eps, exp, err, exp_params
 
     def on_path(e, r):
         kind, v = r
@@ -311,7 +320,7 @@ def job_route(job) -> report.JobResult:
                 raise Fail(f"exception:{type(v).__name__}", repr(v))
             if twin:
                 raise Fail("twin-assert-false")
-            status, eps, exp, err = v
+            status, eps, exp, err, exp_params = v
             if err is not None:
                 raise Fail("conversion-error-escapes", f"{err!r} for a path whose first spec match is route {exp}")
             hit = [ep.i for ep in eps if ep.calls]
@@ -329,7 +338,8 @@ def job_route(job) -> report.JobResult:
                 names = [nm for nm, _ in specs[i][1]]
                 if sorted(params or {}) != sorted(names):
                     raise Fail("path-params-names", f"{sorted(params or {})} vs {names}")
-                check_params(e, templates[i], specs[i][1], path, params)
+                for pname, (ptype, pits) in (exp_params or {}).items():
+                    compare_param(e, ptype, pits, params[pname])
                 outcome = "dispatched"
             else:
                 if use_z3 and e.check(z3.Or(member)):
@@ -409,6 +419,11 @@ def compare_param(e: Engine, t: str, its: List[Any], got) -> None:
         gi = got.text_items
         if len(gi) != len(its) or any(not z3.eq(term_of(a), term_of(b)) and e.check(term_of(a) != term_of(b)) for a, b in zip(gi, its)):
             raise Fail("param-value-wrong", "Decimal built from other text")
+    elif t == "uuid":
+        txt = getattr(got, "text", None)
+        gi = _items_of(txt) if txt is not None else None
+        if gi is None or len(gi) != len(its) or any(not z3.eq(term_of(a), term_of(b)) and e.check(term_of(a) != term_of(b)) for a, b in zip(gi, its)):
+            raise Fail("param-value-wrong", "UUID built from other text")
     elif t == "date":
         if not isinstance(got, DateModel):
             raise Fail("param-value-wrong", f"date parameter is {type(got).__name__}")
@@ -494,6 +509,44 @@ class DecModel:
         for c in self.int_items + self.frac_items:
             v = v * 10 + (term_of(c) - 48)
         return v * (10 ** (k - len(self.frac_items)))
+
+    def normalize(self, context=None):
+        """Decimal.normalize(): ROUND_HALF_EVEN to the context precision (28 significant digits), trailing zeros dropped.
+        Exact arithmetic model over the digit terms; forks on leading zeros and on the carry."""
+        digits = self.int_items + self.frac_items
+        nf = len(self.frac_items)
+        lz = 0
+        while lz < len(digits) - 1 and in_set(digits[lz], (48,)):
+            lz += 1
+        sig = digits[lz:]
+        coeff = z3.IntVal(0)
+        for c in sig:
+            coeff = coeff * 10 + (term_of(c) - 48)
+        drop = len(sig) - 28
+        if drop <= 0:
+            out = DecModel.__new__(DecModel)
+            out.text_items = list(self.text_items)
+            out.int_items, out.frac_items = list(self.int_items), list(self.frac_items)
+            return out
+        k = coeff / (10 ** drop)
+        r = coeff % (10 ** drop)
+        half = 5 * 10 ** (drop - 1)
+        up = z3.Or(r > half, z3.And(r == half, k % 2 == 1))
+        k2 = z3.simplify(k + z3.If(up, 1, 0))
+        ndig = 29 if cur().branch(k2 >= 10 ** 28) else 28
+        kd = [SInt(z3.simplify((k2 / (10 ** (ndig - 1 - i))) % 10 + 48)) for i in range(ndig)]
+        exp10 = drop - nf  # value = k2 * 10**exp10
+        out = DecModel.__new__(DecModel)
+        if exp10 >= 0:
+            out.int_items, out.frac_items = kd + [48] * exp10, []
+        else:
+            cut = ndig + exp10
+            if cut > 0:
+                out.int_items, out.frac_items = kd[:cut], kd[cut:]
+            else:
+                out.int_items, out.frac_items = [48], [48] * (-cut) + kd
+        out.text_items = out.int_items + ([46] + out.frac_items if out.frac_items else [])
+        return out
 
     def is_nan(self):
         return False
@@ -748,7 +801,16 @@ def jobs(tier: str):
                 continue
             for n in range(0, b["path_len_max"] + 1):
                 out.append(dict(name=f"route/{iface}/{tname}/n{n}", kind="route", iface=iface, table=tname, n=n, weight=3 ** n))
+        # every literal-only route's own text (+0/1 symbolic chars): shadowing by earlier placeholder routes, exact-text fast paths
+        for tname, tmpls in TABLES.items():
+            for li, t in enumerate(tmpls):
+                if "{" in t:
+                    continue
+                for n in (0, 1):
+                    out.append(dict(name=f"route/{iface}/{tname}/literal{li}+{n}", kind="route", iface=iface, table=tname, n=n, prefix_text=t, weight=2))
         # date / decimal segments behind a fixed prefix so that the symbolic characters are spent on the parameter
+        out.append(dict(name=f"route/{iface}/decimal-then-str/s+5", kind="route", iface=iface, table="decimal-then-str", n=5, prefix_text="/s/", weight=600))
+        out.append(dict(name=f"route/{iface}/decimal-int/q+5", kind="route", iface=iface, table="decimal-int", n=5, prefix_text="/q/", weight=600))
         out.append(dict(name=f"route/{iface}/decimal-date/d+10", kind="route", iface=iface, table="decimal-date", n=10, prefix_text="/d/", weight=5000))
     out.append(dict(name="twin/route", kind="route", iface="wsgi", table="root", n=2, twin=True))
     for ni in range(1, b["int_digits_max"] + 1):
@@ -757,6 +819,8 @@ def jobs(tier: str):
     for ni in range(1, lim + 1):
         for nf in range(0, lim + 1):
             out.append(dict(name=f"conv/decimal/{ni}.{nf}", kind="conv", what="decimal", ni=ni, nf=nf, weight=4 ** (ni + nf)))
+    for ni, nf in ((30, 0), (1, 30), (14, 16)):
+        out.append(dict(name=f"conv/decimal/{ni}.{nf}-beyond-context-precision", kind="conv", what="decimal", ni=ni, nf=nf, weight=3000))
     out.append(dict(name="conv/date", kind="conv", what="date", ni=0, nf=0, weight=100))
     out.append(dict(name="twin/conv", kind="conv", what="int", ni=1, twin=True))
     return out
